@@ -43,9 +43,26 @@ def main():
     rc, o = sh("git -C /repo status --short")
     if o.strip():
         print("/repo is dirty, refusing"); return 2
-    rc, o = sh("git -C /repo apply %s" % patch)
+    rebased = None
+    alt = os.path.join(out, "patch.for_repo.diff")  # hand-rebased onto the current tree
+    if os.path.exists(alt):
+        patch_repo = alt
+        rebased = open(alt).read()
+        rec["patch_rebased_onto"] = sh("git -C /repo rev-parse --short HEAD")[1].strip() + " (by hand: the original conflicted with a later fix)"
+    else:
+        patch_repo = patch
+    rc, o = sh("git -C /repo apply %s" % patch_repo)
     if rc != 0:
-        print("patch does not apply to /repo", o); return 2
+        # the tree moved on since the change was written: three-way merge against the blobs it was made on
+        rc, o = sh("git -C /repo apply --3way %s && git -C /repo reset -q" % patch)
+        if rc != 0:
+            sh("git -C /repo reset -q --hard")
+            print("patch does not apply to /repo", o); return 2
+        # refresh the stored patch so that it applies to the current tree
+        rc2, newdiff = sh("git -C /repo diff -- src")
+        if rc2 == 0 and newdiff.strip():
+            rec["patch_rebased_onto"] = sh("git -C /repo rev-parse --short HEAD")[1].strip()
+            rebased = newdiff
     results = {}
     try:
         for cid in checks:
@@ -69,7 +86,10 @@ def main():
     d = os.path.join("/verif/seeded", sid)
     if ok:
         os.makedirs(d, exist_ok=True)
-        shutil.copy(patch, os.path.join(d, "patch.diff"))
+        if rebased:
+            open(os.path.join(d, "patch.diff"), "w").write(rebased)
+        else:
+            shutil.copy(patch, os.path.join(d, "patch.diff"))
         shutil.copy(os.path.join(out, "demo.rs"), os.path.join(d, "demo.rs"))
         json.dump(rec, open(os.path.join(d, "meta.json"), "w"), indent=1)
     print(json.dumps({k: rec[k] for k in ["confirmed", "confirmed_demo_passes_without_change", "confirmed_suite_passes_with_change", "confirmed_demo_fails_with_change", "caught_by"]}))
